@@ -35,6 +35,12 @@ func init() {
 		}
 		if oList, ok := args[0].(*List); ok {
 			listSelf.Items = append(listSelf.Items, oList.Items...)
+		} else {
+			// any other iterable
+			err := listSelf.ExtendSequence(args[0])
+			if err != nil {
+				return nil, err
+			}
 		}
 		return NoneType{}, nil
 	}, 0, "extend([item])")
